@@ -146,6 +146,16 @@ Apply(r) ==
 
 TvTm == /\ E.op = "tm" /\ ~Has(E, "unsupported") /\ Apply(TmChecks) /\ UNCHANGED <<sizes, memoD, memoJ, memoS>>
 
+\* the pre-filters of word_match on literal words: the verdicts follow the true length ratio and the true set similarity
+GateChecks ==
+  IF Has(E, "panic") THEN Res(<<Finding(l, "C01", "word gate panicked")>>, <<>>, <<"C17">>)
+  ELSE Res(
+         Check(E.jaccard_ok = JaccardCheck(E.r, E.q, E.qfin), l, "C17", "the Jaccard pre-filter does not follow the true set similarity")
+      \o AccFindings(E, l),
+         Check(E.length_ok = LengthCheck(Len(E.r), Len(E.q), E.qfin), l, "L2", "length gate differs from WordMatch.tla"),
+         <<"C17", "C19">>)
+TvGate == /\ E.op = "gate" /\ ~Has(E, "unsupported") /\ Apply(GateChecks) /\ UNCHANGED <<sizes, memoD, memoJ, memoS>>
+
 TvDl  == /\ E.op = "dl" /\ ~Has(E, "unsupported")
          /\ Apply(DlChecks)
          /\ sizes' = IF Has(E, "size") THEN Put(sizes, E.inst, E.size) ELSE [x \in DOMAIN sizes \ {E.inst} |-> sizes[x]]
@@ -175,7 +185,7 @@ TvCase == /\ E.op = "case"
 TvOther == /\ (E.op \in {"header", "chartable", "endcase"} \/ Has(E, "unsupported"))
            /\ UNCHANGED <<sizes, memoD, memoJ, memoS, viol, drift, cnt>>
 
-TvNext == l <= NRec /\ l' = l + 1 /\ (TvDl \/ TvJac \/ TvLs \/ TvTok \/ TvTm \/ TvNew \/ TvCase \/ TvOther)
+TvNext == l <= NRec /\ l' = l + 1 /\ (TvDl \/ TvJac \/ TvLs \/ TvTok \/ TvTm \/ TvGate \/ TvNew \/ TvCase \/ TvOther)
 TvInit == l = 1 /\ sizes = <<>> /\ memoD = <<>> /\ memoJ = <<>> /\ memoS = <<>> /\ viol = <<>> /\ drift = <<>>
           /\ cnt = [p \in PropIds |-> 0]
 TvSpec == TvInit /\ [][TvNext]_vars
